@@ -4,6 +4,7 @@ package roles
 
 import (
 	"fmt"
+	"go/token"
 	"go/types"
 	"sort"
 	"strings"
@@ -81,9 +82,49 @@ func Resolve(p *load.Program) *Roles {
 		}
 		return out
 	}
+	// callsDeep: f calls pkg.name itself or through unexported top-level helpers of the root package (a core function
+	// split into helper steps keeps its role)
+	var callsDeep func(f *ssa.Function, pkg, name string, depth int) bool
+	callsDeep = func(f *ssa.Function, pkg, name string, depth int) bool {
+		if ssau.CallsTo(f, pkg, name) {
+			return true
+		}
+		if depth >= 4 {
+			return false
+		}
+		cs, _ := ssau.Callees(f)
+		for _, c := range cs {
+			if isRoot(c) && c.Parent() == nil && c != f && !token.IsExported(c.Name()) && c.Signature.Recv() == nil && callsDeep(c, pkg, name, depth+1) {
+				return true
+			}
+		}
+		return false
+	}
+	// among several candidates prefer the ones the exported entry point calls directly (the others are its helpers)
+	prefer := func(entry *ssa.Function, cands []*ssa.Function) []*ssa.Function {
+		if len(cands) < 2 || entry == nil {
+			return cands
+		}
+		direct, _ := ssau.Callees(entry)
+		var out []*ssa.Function
+		for _, c := range cands {
+			for _, d := range direct {
+				if c == d {
+					out = append(out, c)
+				}
+			}
+		}
+		if len(out) > 0 {
+			return out
+		}
+		return cands
+	}
 	if r.Verify != nil {
 		mod, _, _ := ssau.Reachable(r.Verify)
-		r.VerifyCore = uniq("verifyCore", filter(mod, func(f *ssa.Function) bool { return ssau.CallsTo(f, "internal/ge25519", "CofactorEqual") }), r.Errs)
+		r.VerifyCore = uniq("verifyCore", prefer(r.Verify, filter(mod, func(f *ssa.Function) bool {
+			res := f.Signature.Results()
+			return !token.IsExported(f.Name()) && res.Len() == 1 && res.At(0).Type().String() == "bool" && callsDeep(f, "internal/ge25519", "CofactorEqual", 0)
+		})), r.Errs)
 	}
 	if r.VerifyCore != nil {
 		mod, _, _ := ssau.Reachable(r.VerifyCore)
@@ -113,9 +154,9 @@ func Resolve(p *load.Program) *Roles {
 	}
 	if r.Sign != nil {
 		mod, _, _ := ssau.Reachable(r.Sign)
-		r.SignCore = uniq("signCore", filter(mod, func(f *ssa.Function) bool {
-			return ssau.CallsTo(f, "internal/ge25519", "ScalarmultBaseNiels") && ssau.CallsTo(f, "internal/modm", "Contract")
-		}), r.Errs)
+		r.SignCore = uniq("signCore", prefer(r.Sign, filter(mod, func(f *ssa.Function) bool {
+			return !token.IsExported(f.Name()) && callsDeep(f, "internal/ge25519", "ScalarmultBaseNiels", 0) && callsDeep(f, "internal/modm", "Contract", 0)
+		})), r.Errs)
 	}
 	// unwrap: method on *Options with 3 results ending in error
 	{
@@ -158,24 +199,28 @@ func Resolve(p *load.Program) *Roles {
 	if r.SignCore != nil {
 		mod, _, _ := ssau.Reachable(r.SignCore)
 		r.WriteDom2 = uniq("writeDom2", filter(mod, func(f *ssa.Function) bool {
-			hasW := false
-			for i := 0; i < f.Signature.Params().Len(); i++ {
-				if f.Signature.Params().At(i).Type().String() == "io.Writer" {
-					hasW = true
-				}
-			}
-			if !hasW {
+			// (writer, flag, context): an io.Writer, one []byte and one parameter of a named integer type; no results
+			ps := f.Signature.Params()
+			if ps.Len() != 3 || f.Signature.Results().Len() != 0 || f.Signature.Variadic() {
 				return false
 			}
-			// the function that itself writes (a guard wrapper around it only delegates)
-			for _, b := range f.Blocks {
-				for _, in := range b.Instrs {
-					if c, ok := in.(ssa.CallInstruction); ok && c.Common().IsInvoke() && c.Common().Method.Name() == "Write" {
-						return true
+			w, b, fl := 0, 0, 0
+			for i := 0; i < ps.Len(); i++ {
+				t := ps.At(i).Type()
+				switch {
+				case t.String() == "io.Writer":
+					w++
+				case t.String() == "[]byte":
+					b++
+				default:
+					if _, named := t.(*types.Named); named {
+						if bt, ok := t.Underlying().(*types.Basic); ok && bt.Info()&types.IsInteger != 0 {
+							fl++
+						}
 					}
 				}
 			}
-			return false
+			return w == 1 && b == 1 && fl == 1
 		}), r.Errs)
 	}
 	if r.VerifyBatch != nil {
